@@ -15,10 +15,10 @@ def sh(cmd, cwd, timeout=1200):
     return p.returncode, p.stdout
 meta = json.load(open(os.path.join(mutdir, "meta.json")))
 patch = os.path.join(mutdir, "patch.diff")
-loc = meta.get("demo_location", "")
+loc = meta.get("demo_location", "") or meta.get("demo_dir", "")
 m = re.search(r"([A-Za-z0-9_./-]+/)", loc)
 demos = [f for f in glob.glob(os.path.join(mutdir, "*_test.go"))]
-report = {"property": pid, "summary": meta.get("summary"), "needs": meta.get("what_it_needs_to_manifest"), "files_changed": meta.get("files_changed")}
+report = {"property": pid, "summary": meta.get("summary"), "needs": meta.get("what_it_needs_to_manifest") or meta.get("needs"), "files_changed": meta.get("files_changed")}
 sh("git checkout -- . ", wt)
 def place(where):
     placed = []
